@@ -245,6 +245,9 @@ def run(prog: Program, col: Collector, tier: str, refs: Optional[Refs] = None, c
                   f"contribution is truncated ({cat.ops[r.registry].var}(0.5, array([0, 2])) loses the 0.5), so the op no longer agrees with its scalar and all-array forms" if casts else "", f.loc())
     col.cur.analysed["mixed_kernels"] = n_mixed
 
+    # ---------------------------------------------------------------- R15.15 the shift of logsumexp is taken along the reduced axis
+    _logsumexp_axis(prog, col, refs, cat, "R15.15")
+
     # ---------------------------------------------------------------- R15.13 boolean ops are closed on Python bools
     col.rule("R15.13", "an op whose scalar default is a bitwise operator has a boolean implementation for Python bools when that operator leaves the booleans", floor=1)
     # external fact (Python data model): on bool operands operator.and_/or_/xor return bool, operator.invert returns int (~True == -2)
@@ -433,3 +436,39 @@ def _siblings(prog: Program, col: Collector, refs: Refs, cat: Catalogue):
                 col.check(not bad, construct, f"implementation calls only {sorted(want)} from the reduction family",
                           f"the implementation of {op.var} ({ab}) calls {bad}: a different reduction", r.loc)
     # default implementations of reduction ops are checked by axioms.identify (they resolved to the right numpy function)
+
+
+# ---------------------------------------------------------------------- R15.15
+def _logsumexp_axis(prog: Program, col: Collector, refs: Refs, cat: Catalogue, rule: str):
+    """logsumexp(x, axis) = m + log(sum(exp(x - m), axis)) is exact for ANY shift m that is constant along `axis`; it is numerically
+    useful only with m = max(x, axis).  A shift taken over the whole array (axis forgotten) is still constant along the axis, but slices
+    whose values lie far below the global maximum underflow to -inf.  Every reduction inside an implementation of logsumexp must
+    therefore run along the function's own axis parameter."""
+    col.rule(rule, "every reduction inside an implementation of logsumexp runs along the op's own axis", floor=1)
+    n = 0
+    impls = []
+    for o in cat.ops.values():
+        if axioms.identify(cat, o) == "LOGSUMEXP" and isinstance(o.impl, ast.FunctionDef) and o.impl in prog.funcs_by_node:
+            impls.append(prog.funcs_by_node[o.impl])
+            for r in cat.registrations:
+                if r.registry == o.fq and r.method == "register" and r.target is not None and not isinstance(r.target.node, ast.Lambda):
+                    impls.append(r.target)
+    for f in impls:
+        axis_params = [p for p in f.params if p in ("axis", "dim")]
+        if not axis_params:
+            continue
+        ax = axis_params[0]
+        for c in walk_no_nested(f.node):
+            if not isinstance(c, ast.Call):
+                continue
+            fn = c.func.attr if isinstance(c.func, ast.Attribute) else (c.func.id if isinstance(c.func, ast.Name) else "")
+            if fn not in ("amax", "max", "sum", "amin", "min", "logsumexp", "nansum"):
+                continue
+            if fn in ("max", "min") and len(c.args) >= 2 and not c.keywords and isinstance(c.func, ast.Name):
+                continue  # binary max of two values
+            n += 1
+            uses = any(isinstance(x, ast.Name) and x.id == ax for a in list(c.args[1:]) + [k.value for k in c.keywords] for x in ast.walk(a))
+            col.check(uses, f"{f.fq}::{norm(c)[:50]}", f"reduces along `{ax}`",
+                      f"`{norm(c)[:60]}` does not use the `{ax}` parameter of `{f.name}`: the shift is the maximum of the WHOLE array, so a slice whose entries are more than ~700 below "
+                      "the global maximum underflows to -inf although its own log-sum-exp is finite", f.loc(c))
+    col.cur.analysed["logsumexp_reductions"] = n
